@@ -46,6 +46,8 @@ var c05Rules = []struct{ name, src string }{
 	{"div", "/^v (?P<n>\\d+)$/ {\n  c1++\n  g0 = 100 / $n\n  c0[\"v\"]++\n}\n"},
 	{"strptime-then-error", "/^u (?P<v>\\S+ \\S+) (?P<w>\\w+)$/ {\n  strptime($v, \"2006-01-02 15:04:05\")\n  c1++\n  g0 = strtol($w, 10)\n  c0[\"u\"]++\n}\n"},
 	{"strptime-then-stop", "/^q (?P<v>\\S+ \\S+)$/ {\n  strptime($v, \"2006-01-02 15:04:05\")\n  c1++\n  stop\n}\n"},
+	// a line whose only metric access is one label set (that GC may have collected in the meantime)
+	{"bump", "/^m (?P<k>\\w)$/ {\n  c0[$k]++\n}\n"},
 	{"capture-reuse", "/^(?P<first>\\w) (?P<rest>.*)$/ {\n  s0 = $rest\n  c0[$first]++\n}\n"},
 }
 
@@ -55,6 +57,16 @@ func c05Program(e *Env) (string, []string) {
 	n := 3 + e.Choose("gen", 6)
 	var names []string
 	used := map[int]bool{}
+	if e.Choose("gen", 6) == 0 {
+		// the pair the "collected and touched again" history needs
+		for k, r := range c05Rules {
+			if r.name == "bump" || r.name == "del-after" {
+				used[k] = true
+				names = append(names, r.name)
+				sb.WriteString(r.src)
+			}
+		}
+	}
 	for i := 0; i < n; i++ {
 		k := e.Choose("gen", len(c05Rules))
 		if used[k] {
@@ -92,7 +104,9 @@ func c05Line(e *Env, pool *[]string) string {
 		return fmt.Sprintf("%04d-%02d-%02d %02d:%02d:%02d", 2000+e.Choose("gen", 3), 1+e.Choose("gen", 12), 1+e.Choose("gen", 12), e.Choose("gen", 24), e.Choose("gen", 60), 7)
 	}
 	var l string
-	switch e.Choose("gen", 17) {
+	switch e.Choose("gen", 19) {
+	case 17, 18:
+		l = "m " + []string{"a", "b", "x", "v", "q"}[e.Choose("gen", 5)]
 	case 15:
 		l = "u " + date() + " " + []string{"12", "zz", "q9"}[e.Choose("gen", 3)]
 	case 16:
@@ -156,6 +170,10 @@ func propC05(e *Env) {
 		loc = time.FixedZone("plus3", 3*3600)
 	}
 	useYear := e.Bool("knob")
+	logErrs := e.Choose("knob", 3) == 0 // the option that also logs runtime errors: must not change anything
+	if logErrs {
+		e.Probe("opt_log_runtime_errors")
+	}
 	c, err := compiler.New()
 	if err != nil {
 		e.Broken("compiler.New: %v", err)
@@ -166,7 +184,7 @@ func propC05(e *Env) {
 		if err != nil {
 			return nil
 		}
-		return vm.New(name, obj, useYear, loc, false, false)
+		return vm.New(name, obj, useYear, loc, logErrs, false)
 	}
 	vh := compile("p.mtail")
 	if vh == nil {
@@ -179,7 +197,54 @@ func propC05(e *Env) {
 	var hist []string
 	nh := e.Choose("gen", 13)
 	stateful := false
+	// the store's garbage collection works on the same metric objects (as under the runtime)
+	gcStore := metrics.NewStore()
+	for _, m := range vh.Metrics {
+		if err := gcStore.Add(m); err != nil {
+			e.Broken("store.Add: %v", err)
+			return
+		}
+	}
+	gc := func() {
+		if err := gcStore.Gc(); err != nil {
+			e.Broken("Gc: %v", err)
+		}
+		hist = append(hist, "(gc)")
+		e.Probe("history_has_gc")
+	}
+	// One run in twelve: a long history — a timestamped line, then 64-200 lines with other timestamps (more
+	// than any small cache of parses holds), then that first line again as L.
+	longFirst := ""
+	longPrefix := ""
+	for _, rn := range rules {
+		switch rn {
+		case "strptime-ymd":
+			longPrefix = "a"
+		case "strptime-ydm":
+			if longPrefix == "" {
+				longPrefix = "b"
+			}
+		}
+	}
+	if longPrefix != "" && e.Choose("gen", 6) == 0 {
+		longFirst = longPrefix + " 2001-02-03 04:05:07"
+		nh = 0
+		vh.ProcessLogLine(ctx, logline.New(ctx, "log", longFirst))
+		hist = append(hist, longFirst)
+		n := 64 + e.Choose("gen", 137)
+		for i := 0; i < n; i++ {
+			l := fmt.Sprintf("%s 2002-%02d-%02d %02d:%02d:07", longPrefix, 1+i%12, 1+(i/12)%12, (i/144)%24, i%60)
+			vh.ProcessLogLine(ctx, logline.New(ctx, "log", l))
+		}
+		hist = append(hist, fmt.Sprintf("(%d lines '%s 2002-MM-DD hh:mm:07' with distinct timestamps)", n, longPrefix))
+		stateful = true
+		e.Probe("history_has_strptime")
+		e.Probe("long_history_of_distinct_timestamps")
+	}
 	for i := 0; i < nh; i++ {
+		if e.Choose("gen", 6) == 0 {
+			gc()
+		}
 		switch e.Choose("gen", 8) {
 		case 0:
 			d := time.Duration(1+e.Choose("gen", 500)) * 24 * time.Hour
@@ -210,7 +275,34 @@ func propC05(e *Env) {
 		time.Sleep(time.Duration(1+e.Choose("gen", 400)) * 24 * time.Hour)
 		hist = append(hist, "(clock jump)")
 	}
+	if e.Choose("gen", 4) == 0 {
+		gc()
+	}
 	L := c05Line(e, &pool)
+	if longFirst != "" {
+		L = longFirst
+	}
+	hasRule := func(n string) bool {
+		for _, rn := range rules {
+			if rn == n {
+				return true
+			}
+		}
+		return false
+	}
+	if longFirst == "" && hasRule("bump") && hasRule("del-after") && e.Choose("gen", 2) == 0 {
+		// a label set is created, marked for expiry, touched, collected by GC after its expiry — and L touches it again
+		k := []string{"a", "b", "x"}[e.Choose("gen", 3)]
+		for _, l := range []string{"m " + k, "e " + k, "m " + k} {
+			vh.ProcessLogLine(ctx, logline.New(ctx, "log", l))
+			hist = append(hist, l)
+		}
+		time.Sleep(time.Duration(61+e.Choose("gen", 600)) * time.Minute)
+		hist = append(hist, "(clock +1h or more)")
+		gc()
+		L = "m " + k
+		e.Probe("collected_label_set_touched_again")
+	}
 	// fresh copy with the same metric contents
 	vf := compile("p.mtail")
 	if vf == nil || len(vf.Metrics) != len(vh.Metrics) {
